@@ -436,3 +436,28 @@ def always_through(e, rx, depth=0):
     return False
 
 
+
+
+def unique_field_names(ctx, rid, rules, floor=None):
+    """A rule function receives its fields as a map from name to token: a pattern that names two fields alike binds only the
+    last one (the earlier token is consumed by the match and silently dropped). Every pattern of the given rules, in every
+    language, must name its fields apart."""
+    from .data import abstract_tokens
+    ctx.rule(rid, 'a pattern names its fields apart', floor=floor)
+    from . import model
+    n = 0
+    for lang in sorted(ctx.config.languages):
+        for rn, p, org in model.all_patterns(ctx, lang):
+            if rn not in rules:
+                continue
+            names = [t[2] for t in abstract_tokens(p) if t[0] == 'field']
+            dup = sorted(set(x for x in names if names.count(x) > 1))
+            n += 1
+            if dup:
+                ctx.finding(rid, '%s/%s/%s/duplicate-field' % (rn, lang, p), 'pattern %r of rule %s (%s) binds the field name(s) %s more than once: the rule function sees only the last of them, the other matched token is dropped'
+                            % (p, rn, lang, dup), site=org)
+            else:
+                ctx.ok(rid, '%s[%s] %r: %d distinct field names' % (rn, lang, p, len(names)), 'data', site=org, sample=False)
+    if not n:
+        from .facts import AnchorLost
+        raise AnchorLost('no pattern found for the rules %s' % sorted(rules))
